@@ -1227,3 +1227,8 @@ K("_twin_surrogates_s", "timeseries", props=("C15", "C20"), lists3=("twins",),
          "i.while.while": ["0<=j and j<N", "k>=N", "shape(surrogates,0)==n_surrogates and shape(surrogates,1)==N"]},
   asserts={"store:surrogates": ["0<=k and k<N and 0<=j and j<N and 0<=i and i<n_surrogates"]},
   checks=("bounds", "narrow", "divzero"))
+
+
+# Python-region contracts whose region runs on a bare instance: also evaluated at run time (R layer)
+for _nm in ("ClimateNetwork._calculate_threshold_adjacency",):
+    REG[_nm][0].contract.rtc_py = True
